@@ -67,6 +67,18 @@ Theorem C12_mutex : forall cstate cinit cclosed process flush g,
 Proof. intros cs ci cc pr fl g progs s t s' _ E. exact (mutex_step cs ci cc pr fl g s t s' E). Qed.
 Print Assumptions C12_mutex.
 
+(* C12_inorder has two halves.  This one holds for every configuration: the packets an
+   assembler has processed, in the order it processed them, are a subsequence of its program
+   (so a direction fed in a fixed order by one assembler is processed in that order).  The other
+   half - each packet is processed on a connection object that carries the packet's key at that
+   moment, C12_inorder_stmt - is refuted for the code as it is (stale pointer to a recycled
+   object) and proved without recycling, below. *)
+Theorem C12_inorder_order : forall cstate cinit cclosed process flush g progs s t,
+  reachable cstate cinit cclosed process flush g progs s ->
+  subseq (procs t (s_log s)) (pkts_of (nth t progs [])).
+Proof. intros cs ci cc pr fl g progs s t R. exact (processed_in_program_order cs ci cc pr fl g progs s t R). Qed.
+Print Assumptions C12_inorder_order.
+
 (* a held connection lock belongs to a thread inside that connection's remove section *)
 Theorem C12_lock_owner : forall cstate cinit cclosed process flush g progs s,
   reachable cstate cinit cclosed process flush g progs s ->
@@ -259,6 +271,11 @@ Example C12_without_recycling_nonvacuous :
   chk_right_stream g s = true /\ has_race tconn tc_init g s = false /\
   s_nsid s = 3 /\ all_done s = true /\ In TgRetry (s_tags s).
 Proof. vm_compute. repeat split; auto. Qed.
+
+Example C12_inorder_order_nonvacuous :
+  let s := sched_tcp cfg_tcp w_rec_tcp (w_rec_wrong ++ [0; 0; 0; 0]) in
+  length (procs 0 (s_log s)) = 3 /\ length (procs 1 (s_log s)) = 1.
+Proof. vm_compute. split; reflexivity. Qed.
 
 (* non-vacuity of the invariants: the witness states are reachable and non-trivial *)
 Example C12_progress_nonvacuous :
